@@ -11,13 +11,31 @@ CLASSES = ["uniform", "clustered", "collinear", "tied", "converged", "tied_best"
 BAND = 1e-9
 
 
-def ref_nbc(genomes, fits, maximize, factor, trunc):
+def admissible_kept(fits, maximize, K, kept):
+    """Is `kept` (indices, in the order the implementation holds them) a legitimate "best K individuals, best first"?  Among equal fitness
+    values the definition does not say which individuals are kept (or which of several tied ones is "the best one"): any choice is fine."""
+    n = len(fits)
+    key = (lambda i: -fits[i]) if maximize else (lambda i: fits[i])
+    if len(kept) != K or len(set(kept)) != len(kept) or any(not (0 <= i < n) for i in kept):
+        return False
+    if any(key(kept[a]) > key(kept[a + 1]) for a in range(len(kept) - 1)):
+        return False
+    if kept:
+        worst = max(key(i) for i in kept)
+        ks = set(kept)
+        if any(key(j) < worst for j in range(n) if j not in ks):
+            return False
+    return True
+
+
+def ref_nbc(genomes, fits, maximize, factor, trunc, kept=None):
     """Independent O(n^2) reference.  Returns (K, order, dist dict idx->d, mean, must, may) where `must` are the
-    indices that have to be returned, `may` the ones in the tolerance band (either answer accepted)."""
+    indices that have to be returned, `may` the ones in the tolerance band (either answer accepted).  `kept`: the kept part as the
+    implementation chose it among equal fitness values (validated by the caller with admissible_kept); default: ties in input order."""
     n = len(fits)
     order = sorted(range(n), key=lambda i: (-fits[i] if maximize else fits[i]))  # stable, best first
     K = int(n * trunc)
-    kept = order[:K]
+    kept = list(kept) if kept is not None else order[:K]
     if K == 0:
         return 0, kept, {}, None, set(), set()
     best = kept[0]
@@ -156,7 +174,7 @@ def make_case(seed, idx, tier):
     }
 
 
-def _cluster(genomes, fits, maximize, factor, trunc, n_objs=1, int_best=False, peek=False):
+def _cluster(genomes, fits, maximize, factor, trunc, n_objs=1, int_best=False, peek=False, via_clone=False):
     from pyhms.core.individual import Individual
     from pyhms.core.problem import FunctionProblem
     from pyhms.utils.clusterization import NearestBetterClustering
@@ -166,6 +184,17 @@ def _cluster(genomes, fits, maximize, factor, trunc, n_objs=1, int_best=False, p
     # in tree.all_individuals, each hold their own deme's wrapper)
     probs = [FunctionProblem(lambda x: 0.0, np.array([[-1e9, 1e9]] * d), maximize) for _ in range(max(1, n_objs))]
     inds = [Individual(np.array(g, dtype=np.float64), probs[k % len(probs)], float(f)) for k, (g, f) in enumerate(zip(genomes, fits))]
+    if via_clone:
+        # the population a user builds with the public Individual.clone(): offspring cloned from one source, then given their own genome
+        # and fitness (clones are distinct objects with distinct genomes)
+        src = inds[0]
+        built = [src]
+        for k in range(1, len(inds)):
+            c = src.clone()
+            c.genome = np.array(genomes[k], dtype=np.float64)
+            c.fitness = float(fits[k])
+            built.append(c)
+        inds = built
     if int_best:
         order = sorted(range(len(fits)), key=lambda i: (-fits[i] if maximize else fits[i]))
         b = order[0]
@@ -186,7 +215,8 @@ def _cluster(genomes, fits, maximize, factor, trunc, n_objs=1, int_best=False, p
         out = nbc.cluster()
         dists = list(nbc.distances)
     idx_of = {id(i): k for k, i in enumerate(inds)}
-    return [idx_of[id(o)] for o in out], dists
+    kept_idx = [idx_of.get(id(o), -1) for o in nbc.individuals]  # the (public) sorted and truncated list the object works on
+    return [idx_of[id(o)] for o in out], dists, kept_idx
 
 
 class C15Feature:
@@ -213,6 +243,11 @@ class C15Feature:
                 continue
             K, kept, dist, mean, must, may = ref_nbc(genomes, fits, ctx.maximize, g.distance_factor, g.truncation_factor)
             if K < 2 or mean is None:
+                continue
+            sf = sorted(fits, reverse=ctx.maximize)
+            if (K < len(fits) and sf[K - 1] == sf[K]) or sf[0] == sf[1]:
+                # which of several equal individuals is kept / is "the best one" is the implementation's choice and not visible here
+                ctx.cov["C15.real_population_skipped_tie_for_the_best_or_across_the_cut"] += 1
                 continue
             ctx.cov["C15.real_populations_checked"] += 1
             ctx.cov[f"C15.real_populations.{type(deme).__name__}"] += 1
@@ -244,7 +279,11 @@ def run_case(desc):
     n, d = len(fits), len(genomes[0])
     rng = gen.case_rng("C15meta", 0, desc.get("idx", 0))
 
+    clone_built = desc.get("idx", 0) % 11 == 5 and cls != "int_best"
+
     def viol(key, **detail):
+        if clone_built and key in ("a prescribed cluster seed is missing from the result", "number of nearest-better distances differs from the reference", "nearest-better distances differ from the reference"):
+            key += " (population built with Individual.clone())"
         if sum(1 for v in violations if v["key"] == key) < 2:
             detail.update(cls=cls, n=n, dim=d, factor=factor, trunc=trunc, maximize=maximize)
             violations.append({"property": "C15", "key": key, "detail": detail})
@@ -256,8 +295,15 @@ def run_case(desc):
         cov["skipped_floor_ambiguous"] += 1
         return {"violations": [], "cov": cov, "nontrivial": [], "sample": None}
     if K == 0:
-        cov["skipped_K0"] += 1
-        return {"violations": [], "cov": cov, "nontrivial": [], "sample": None}
+        # nothing is kept: the prescribed result is the empty list
+        cov["K_equals_0"] += 1
+        try:
+            got0, _, _k0 = _cluster(genomes, fits, maximize, factor, trunc, 1, False)
+            if got0:
+                viol("individuals returned although floor(n x truncation) == 0 keeps nothing", returned=len(got0))
+        except Exception as e:
+            viol("clustering raised an exception although floor(n x truncation) == 0 simply keeps nothing", error=repr(e)[:200])
+        return {"violations": violations, "cov": cov, "nontrivial": [], "sample": None}
     if K == 1:
         cov["K_equals_1"] += 1
     if 0 < (K + 1) - n * trunc < 1e-9:
@@ -268,10 +314,19 @@ def run_case(desc):
         peek = desc.get("idx", 0) % 5 == 2
         if peek:
             cov["public_views_read_before_clustering"] += 1
-        got, dists = _cluster(genomes, fits, maximize, factor, trunc, n_objs, int_best=(cls == "int_best"), peek=peek)
+        via_clone = clone_built
+        if via_clone:
+            cov["populations_built_with_Individual.clone"] += 1
+        got, dists, kept_lib = _cluster(genomes, fits, maximize, factor, trunc, n_objs, int_best=(cls == "int_best"), peek=peek, via_clone=via_clone)
     except Exception as e:
         viol("clustering raised an exception", error=repr(e)[:200])
         return {"violations": violations, "cov": cov, "nontrivial": [], "sample": None}
+    if not admissible_kept(fits, maximize, K, kept_lib):
+        viol("the kept part is not the best floor(n x truncation) individuals, best first", K=K, kept=kept_lib[:10])
+        return {"violations": violations, "cov": cov, "nontrivial": [], "sample": None}
+    if kept_lib != kept:
+        cov["kept_part_differs_from_input_order_tie_break"] += 1
+        K, kept, dist, mean, must, may = ref_nbc(genomes, fits, maximize, factor, trunc, kept=kept_lib)
     cov["populations"] += 1
     best_fit = fits[kept[0]]
     tied_best = [i for i in kept if fits[i] == best_fit]
@@ -305,13 +360,33 @@ def run_case(desc):
         nontrivial.append([cls, n, d, factor, trunc])
     if cls in ("converged", "converged_offset"):
         cov["converged_populations"] += 1
+    # (3a) the order of the input never matters - also not among equal fitness values (tied for the best, tied across the truncation cut)
+    if not violations and cls != "int_best":
+        p = list(range(n))
+        rng.shuffle(p)
+        try:
+            got_p, _, _kp = _cluster([genomes[i] for i in p], [fits[i] for i in p], maximize, factor, trunc, 1, False)
+            got_p = {p[k] for k in got_p}
+            got_o, _, _ko = _cluster(genomes, fits, maximize, factor, trunc, 1, False)
+            ties = len(set(fits)) < n
+            cov["permutation_twins" + (".with_ties" if ties else "")] += 1
+            cut_tie = 0 < K < n and sorted(fits, reverse=maximize)[K - 1] == sorted(fits, reverse=maximize)[K]
+            if cut_tie:
+                cov["permutation_twins.with_a_tie_across_the_truncation_cut"] += 1
+            if len(tied_best) > 1:
+                cov["permutation_twins.with_a_tie_for_the_best"] += 1
+            if got_p != set(got_o):
+                where = "a tie across the truncation cut" if cut_tie else ("a tie for the best" if len(tied_best) > 1 else ("tied fitness values" if ties else "distinct fitness values"))
+                viol(f"result depends on the order of the input ({where})", original_order=sorted(got_o)[:8], permuted_order=sorted(got_p)[:8])
+        except Exception as e:
+            viol("clustering raised an exception on a permutation input", error=repr(e)[:200])
     # (3) metamorphic re-runs (only decided when the reference result is unambiguous: no band, unique best)
     if not may and len(tied_best) == 1 and not violations:
         base = frozenset(got)
 
         def same(name, g2, f2, mx2, perm=None):
             try:
-                got2, _ = _cluster(g2, f2, mx2, factor, trunc, 1, False)
+                got2, _, kept2_lib = _cluster(g2, f2, mx2, factor, trunc, 1, False)
             except Exception as e:
                 viol(f"clustering raised an exception on a {name} input", error=repr(e)[:200])
                 return
@@ -319,7 +394,11 @@ def run_case(desc):
                 got2 = [perm[k] for k in got2]
             cov[f"metamorphic.{name}"] += 1
             # re-derive the reference on the transformed input to keep the band honest
-            K2, kept2, dist2, mean2, must2, may2 = ref_nbc(g2, f2, mx2, factor, trunc)
+            K2 = int(len(f2) * trunc)
+            if not admissible_kept(f2, mx2, K2, kept2_lib):
+                viol(f"the kept part is not the best floor(n x truncation) individuals ({name} input)")
+                return
+            K2, kept2, dist2, mean2, must2, may2 = ref_nbc(g2, f2, mx2, factor, trunc, kept=kept2_lib)
             if may2 or K2 != K:
                 cov["metamorphic_skipped_band"] += 1
                 return
